@@ -39,10 +39,10 @@ pub fn gen(tier: &str, seed: u64) -> Gen {
     // up to 64 and a sample above)
     let limits: Vec<i64> = if thorough { (1..=64).chain(vec![80, 100, 128, 150, 200].into_iter()).collect() } else { vec![1, 2, 3, 5, 8, 13, 21, 34, 50, 200] };
     for &n in &limits {
-        for kind in 0..7i64 {
+        for kind in 0..8i64 {
             // the quick tier visits the largest limit with two constructs only (the model run is
             // quadratic in the depth)
-            if !thorough && n > 50 && kind != 1 && kind != 4 {
+            if !thorough && n > 50 && kind != 1 && kind != 4 && kind != 7 {
                 continue;
             }
             for &delta in &[-1i64, 0, 1, 7] {
@@ -60,7 +60,7 @@ pub fn gen(tier: &str, seed: u64) -> Gen {
         }
     }
     let n = cases.len();
-    (cases, vec![(format!("{} limits x 7 constructs (the seventh has an innermost body that does not parse) x depths N-1,N,N+1,10N x catch-at-each-level or not, repeated 1-3 times, after one of 5 histories of caught failures (none, unparsable bodies, runaway recursion, wrong argument counts, errors raised while errorCode is an array)", limits.len()), n, thorough)])
+    (cases, vec![(format!("{} limits x 8 constructs (the seventh has an innermost body that does not parse, the eighth recurses through a command substitution inside an expression) x depths N-1,N,N+1,10N x catch-at-each-level or not, repeated 1-3 times, after one of 5 histories of caught failures (none, unparsable bodies, runaway recursion, wrong argument counts, errors raised while errorCode is an array)", limits.len()), n, thorough)])
 }
 
 /// script needing exactly `target` nested evaluation levels (or the closest the construct allows)
@@ -79,6 +79,11 @@ pub fn script_for(kind: i64, target: i64, catch_each: bool) -> (String, i64) {
             let per: i64 = if catch_each && kind != 0 { 2 } else { 1 };
             let d = ((target - 1) / per).max(0);
             (nest(kind, d as usize, catch_each), 1 + d * per)
+        }
+        7 => {
+            // recursion through a command substitution inside an expression: as deep as `down`
+            let k = (target - 3).max(0);
+            (format!("proc sum {{n}} {{if {{$n <= 0}} {{rec deep; return 0}}; expr {{1 + [sum [expr {{$n - 1}}]]}}}}; sum {}", k), k + 3)
         }
         4 => {
             // down k: 1 (top) + (k+1) bodies + 1 (the if body at the bottom) = k + 3
